@@ -216,6 +216,49 @@ def drop_in_use(rng, st, ri, cs, v):
               'type': 1 if v >= 38 else None}]
 
 
+def resize_in_use(rng, st, ri, cs, v):
+    """Targeted: a reshape that changes the values of a class a consumer holds, with that consumer's allocation
+    in the same request acceptable under only ONE of the old and new inventory (grown: only under the new one,
+    must succeed; shrunk below the kept allocation: must be rejected)."""
+    if rng.random() < 0.8:
+        return
+    sole = []
+    for a in st.allocs:
+        c, u, rcid, used = a
+        if sum(1 for b in st.allocs if b[1] == u and b[2] == rcid) == 1 and c in st.cons and u in st.rps:
+            sole.append(a)
+    if not sole:
+        return
+    c, u, rcid, used = rng.choice(sole)
+    rc = st_rcname(st, rcid)
+    if rc not in st.invs.get(u, {}):
+        return
+    row = st.invs[u][rc]
+    old_cap = int((row[2] - row[3]) * (row[7] * 2.0 ** row[8]))
+
+    def inv_of(rw, r):
+        return {'rc': r, 'total': rw[2], 'reserved': rw[3], 'min': rw[4], 'max': rw[5], 'step': rw[6],
+                'ratio': rw[7] * 2.0 ** rw[8], '_omit': ()}
+    others = [inv_of(st.invs[u][r], r) for r in st.invs[u] if r != rc]
+    if rng.random() < 0.5:
+        total = max(old_cap, used) + rng.choice([1, 4, 8])
+        amount = rng.randint(max(old_cap, used) + 1, total)
+    else:
+        if used < 2:
+            return
+        total = rng.randint(1, used - 1)
+        amount = used
+    new = {'rc': rc, 'total': total, 'reserved': 0, 'min': 1, 'max': ops.MAX_INT, 'step': 1, 'ratio': 1.0, '_omit': ()}
+    ri[:] = [(u, st.gen_of(u), others + [new])]
+    rows = {}
+    for b in st.allocs:
+        if b[0] == c:
+            rows.setdefault(b[1], []).append((st_rcname(st, b[2]), amount if (b[1] == u and b[2] == rcid) else b[3]))
+    k = st.cons[c]
+    cs[:] = [{'uuid': c, 'allocs': sorted(rows.items()), 'proj': k[1], 'user': k[2], 'gen': k[4],
+              'type': (k[3] if k[3] != -1 else 1) if v >= 38 else None}]
+
+
 def gen_op(rng, dump, profile='default'):
     prof = PROFILES[profile] if isinstance(profile, str) else profile
     st = State(dump)
@@ -337,4 +380,5 @@ def gen_op(rng, dump, profile='default'):
         joint_claim(rng, st, cs, avoid=[u for u, g, l in ri])
     conflict_tail(rng, st, cs, max(v, 28))
     drop_in_use(rng, st, ri, cs, v)
+    resize_in_use(rng, st, ri, cs, v)
     return ('reshape', v, ri, cs)
